@@ -216,8 +216,25 @@ def handleFile (f : List String) : String × String × String :=
     | _, _, _ => ("bad-input", "-", "file=1")
   | _ => ("bad-fields", "-", "file=1")
 
+/-- `C09.startup <scenario> <generator> <failing gets> <gets that failed> <service state> <entry state> <tokens> <NumTokens>`:
+the real service started while the store rejects the first reads (judge only). Statement: a transient store failure
+during start-up is ridden out — once the store answers again the lifecycler is still running and reaches ACTIVE
+with its full token count registered. -/
+def handleStartup (f : List String) : String × String × String :=
+  match f with
+  | [_name, gen, fails, failed, svc, entry, ntok, num] =>
+    match fails.toNat?, failed.toNat?, ntok.toNat?, num.toNat? with
+    | some k, some hit, some nt, some n =>
+      -- the outage was transient by construction (at most k reads rejected, then the store answers)
+      let recovered := svc == "Running" && entry == "A" && nt == n
+      let judge := if hit ≤ k && !recovered then "startup-not-recovered-after-read-outage" else "-"
+      ("-", judge, s!"startup=1 gen={gen} fails={k} hit={if hit == 0 then "0" else "1+"}")
+    | _, _, _, _ => ("bad-input", "-", "startup=1")
+  | _ => ("bad-fields", "-", "startup=1")
+
 def handle (cmd : String) (f : List String) : String × String × String :=
   if cmd == "C09.run" then handleRun f
+  else if cmd == "C09.startup" then handleStartup f
   else if cmd == "C09.file" then handleFile f
   else ("unknown-cmd", "-", "-")
 
